@@ -32,7 +32,10 @@ Units == << <<97>>, <<122, 32, 122>>, <<2453>>, <<2453, 2494>>, <<2507>>, <<2503
             <<2525>>, <<2466, 2492>>, <<2527>>, <<2479, 2492>>, <<2453, 2509, 2487>>, <<2476, 2494, 2434, 2482, 2494>>, <<101, 769>>, <<233>>, <<2453, 2492, 2509>>, <<2453, 2509, 2492>> >>
 Strs == { <<"u" \o IntStr(i), "str", Lit(VStr(Units[i]))>> : i \in 1..Len(Units) }
         \cup { <<"u" \o IntStr(i) \o "+" \o IntStr(j), "str", Lit(VStr(Units[i] \o Units[j]))>> : i \in {1, 4, 5, 6, 13, 14}, j \in {2, 6, 9, 10, 14, 17} }
-        \cup { <<"empty", "str", Str("")>>, <<"multi-line", "str", Lit(VStr(<<97, 10, 98>>))>>, <<"digits", "str", Str("12")>>, <<"tab", "str", Lit(VStr(<<97, 9, 98>>))>> }
+        \cup { <<"empty", "str", Str("")>>, <<"multi-line", "str", Lit(VStr(<<97, 10, 98>>))>>, <<"digits", "str", Str("12")>>, <<"tab", "str", Lit(VStr(<<97, 9, 98>>))>>,
+             \* texts that something on the way might take for a number or for a format
+             <<"zeros", "str", Str("007")>>, <<"frac0", "str", Str("12.50")>>, <<"bangla05", "str", Lit(VStr(<<2534, 2539>>))>>, <<"exp", "str", Str("1e3")>>, <<"inf", "str", Str("inf")>>, <<"nan", "str", Str("NaN")>>,
+             <<"hex", "str", Str("0x10")>>, <<"minus0", "str", Str("-0")>>, <<"pct", "str", Str("50% off")>>, <<"pctd", "str", Str("%d %s %v")>>, <<"pct100", "str", Str("100%")>>, <<"bs", "str", Lit(VStr(<<92, 110>>))>> }
 Others == { <<"nil", "nil", Lit(VNil)>>, <<"true", "bool", Lit(VBool(TRUE))>>, <<"false", "bool", Lit(VBool(FALSE))>>, <<"not-true", "bool", Un("!", Lit(VBool(TRUE)))>>,
             <<"cmp", "bool", Bin("<", Num(1), Num(2))>> }
 Values == Nums \cup Strs \cup Others
